@@ -265,7 +265,25 @@ def r3b(repo, run):
                         got = dict(func=me.f.get('_func'), merged=merged, cleared=cleared)
                     if got != want:
                         bad.append(('same target' if same else 'other target', a, b, d, got, want))
-    run.table('C13.R3', rows, 'function-node merge over (target same/other) x priorities x delete flag')
+    # a plain mapping (no target of its own) merged onto a function node: only arguments change
+    for a in PRIOS:
+        for b in PRIOS:
+            me = node_obj('self', 'CallNode', _priority=a, _func='f', _children={})
+            ot = node_obj('other', 'ConfigDict', _priority=b, _children={})
+            ot.missing.add('_func')
+            log = []
+
+            def stub2(name, recv, args, kwargs, log=log):
+                log.append((name, getattr(recv, 'name', None)))
+                return recv
+            f = FDE(repo, stubs={'on_merge_impl', 'clear', '_replace_self', '_replace_other', '_maybe_promote', '_propagate_implicit_values', '_propagate_priority'}, stub=stub2)
+            r = fde_guard(lambda: f.call(fi, me, 'p', ot))
+            rows += 1
+            got = dict(func=me.f.get('_func'), merged=('on_merge_impl', 'self') in log, cleared=('clear', 'self') in log, raised=r.raised)
+            want = dict(func='f', merged=True, cleared=False, raised=None)
+            if got != want:
+                bad.append(('plain mapping onto a function node', a, b, None, got, want))
+    run.table('C13.R3', rows, 'function-node merge over (target same/other/none) x priorities x delete flag')
     if bad:
         t, a, b, d, got, want = bad[0]
         run.violation('C13.R3', fi, 'function-node merge table', '%s, older priority %r, newer priority %r, newer delete=%r: %s; expected %s (a losing node with another target must be ignored entirely - its arguments would be passed to the kept target)' % (t, a, b, d, got, want), witness=[str(x) for x in bad[:5]])
